@@ -15,6 +15,7 @@ int rawConnectUnix(const char* path);
 int rawSend(int fd, const void* data, size_t n);
 // Sends the bytes as one segment regardless of short_send settings.
 int rawSendSegment(int fd, const void* data, size_t n);
+int rawShutdownWrite(int fd); // half-close: FIN behind what was sent, the descriptor keeps receiving
 // Reads up to max bytes, waiting at most timeout simulated seconds (<0: forever).
 // Returns >0 bytes, 0 on EOF, -1 on reset, -2 on timeout.
 int rawRecv(int fd, void* buf, size_t max, double timeout);
